@@ -29,25 +29,29 @@ META = {
     "technique": "explicit-state BFS over authentication request histories with prefix replay on two live "
                  "Transports (event mode), compared with a reference model of RFC 4252 server auth",
     "text": "All histories (quick: length <=2 in the main configuration, <=4 in the GSS-bound one; thorough: "
-            "until the canonical state space closes, fail counter 0..10) over an alphabet of 162 (quick) / 206 "
+            "until the canonical state space closes, fail counter 0..10) over an alphabet of 182 (quick) / 234 "
             "(thorough) client packets: none, password (incl. change request), keyboard-interactive request / "
             "response, publickey for ed25519 / ecdsa-256(/384/521) / rsa x {ssh-rsa, rsa-sha2-256, rsa-sha2-512} "
             "x {probe, valid signature, signature for another session id, signed username / service / method / "
             "algorithm / key blob altered, signature bit flipped, signed by another key, genuine request "
-            "recorded in another live session and replayed verbatim}, gssapi-with-mic request / token / MIC and "
+            "recorded in another live session and replayed verbatim, malformed signature encodings [blob one byte "
+            "short / empty / missing / all bits set - verifiers may raise instead of answering no]}, gssapi-with-mic request / token / MIC and "
             "gssapi-keyex (stub GSS context; MIC valid / invalid / no context), unknown method, service request, "
             "pipelined bursts; the server application's answer for each packet ranges over SUCCESSFUL / "
-            "PARTIALLY_SUCCESSFUL / FAILED (/ InteractiveQuery). Four configurations: shipped dispatch; "
+            "PARTIALLY_SUCCESSFUL / FAILED (/ InteractiveQuery). Five configurations: shipped dispatch; "
             "gssapi-with-mic handlers bound by the harness (reaches the anchored _parse_userauth_gssapi_mic, "
             "which the shipped dispatch cannot: it dies in a TypeError); GSSAPI disabled; no SERVICE_REQUEST "
-            "before the first USERAUTH_REQUEST (reduced alphabet, length <=2/3).",
+            "before the first USERAUTH_REQUEST (reduced alphabet, length <=2/3); two user names interleaved into "
+            "the multi-step exchanges (challenge/response, probe/signature, partial success/next factor; 11/18 "
+            "packets, length <=3/4; reference model without user pinning): every grant must be reported for the "
+            "user name the application approved.",
     "note": "server side is unmodified paramiko; client packets are harness-composed; GSS library replaced by a "
-            "stub context (keyed hash over the RFC 4462 MIC fields); one username; username switching and the "
-            "failure cap are C16's",
+            "stub context (keyed hash over the RFC 4462 MIC fields); whether a username switch ends the "
+            "connection and the failure cap are C16's (here only: who a grant goes to)",
     "design_ref": "4/C14",
 }
 
-AL, SC = "alice", "ssh-connection"
+AL, BOB, SC = "alice", "bob", "ssh-connection"
 # the real client chooses the algorithm itself when its request is recorded for the "replayed" variant
 REPLAY_ALGOS = ("ssh-ed25519", "ecdsa-sha2-nistp256", "rsa-sha2-512")
 DEBUG = bool(os.environ.get("VERIF_DEBUG"))
@@ -57,6 +61,9 @@ CFGS = {
     "gss-off": {"gss": False, "gss_dispatch": "shipped"},
     # the client never sends SERVICE_REQUEST "ssh-userauth" and starts with USERAUTH_REQUEST right away
     "no-service-request": {"gss": True, "gss_dispatch": "shipped", "service_request": False},
+    # a second user name interleaved into the multi-step exchanges (challenge -> response, probe -> signature,
+    # partial success -> next factor): every grant must go to the name the application approved
+    "two-users": {"gss": False, "gss_dispatch": "shipped", "pin_user": False},
 }
 CALLBACK_FOR = {
     "none": {"auth_none"}, "password": {"auth_password"}, "publickey": {"auth_publickey"},
@@ -90,6 +97,9 @@ def alphabet(tier, cfg):
                 # with a refusing application the signature is never looked at: F only where it matters
                 for app in ("SPF" if sv in ("probe", "valid") else "SP"):
                     evs.append(("req", AL, SC, "publickey", "%s/%s/%s" % (kk, alg, sv), app))
+            # malformed signature encodings (verifiers may raise instead of answering "no")
+            for sv in R.SIG_MALFORMED:
+                evs.append(("req", AL, SC, "publickey", "%s/%s/%s" % (kk, alg, sv), "S"))
         evs += gss_events()
         evs += [("req", AL, SC, "hostbased", "-", app) for app in "SF"]
         evs += [("svc", "ssh-userauth")]
@@ -101,6 +111,18 @@ def alphabet(tier, cfg):
             ("burst", (("req", AL, SC, "password", "plain", "F"), ("req", AL, SC, "password", "plain", "S"))),
             ("burst", (("req", AL, SC, "keyboard-interactive", "-", "Q"), ("iresp", "F"))),
         ]
+    elif cfg == "two-users":
+        ed = "ed25519/ssh-ed25519/"
+        evs += [("req", AL, SC, "keyboard-interactive", "-", "Q"), ("req", AL, SC, "publickey", ed + "probe", "S"),
+                ("req", AL, SC, "password", "plain", "P"), ("req", AL, SC, "password", "plain", "S"),
+                ("req", AL, SC, "none", "-", "F")]
+        evs += [("req", BOB, SC, "none", "-", "F"), ("req", BOB, SC, "password", "plain", "F"),
+                ("req", BOB, SC, "password", "plain", "S"), ("req", BOB, SC, "keyboard-interactive", "-", "Q")]
+        evs += [("iresp", "S"), ("iresp", "F")]
+        if tier != "quick":
+            evs += [("req", u, SC, "publickey", ed + "valid", "S") for u in (AL, BOB)]
+            evs += [("req", AL, SC, "password", "plain", "F"), ("req", BOB, SC, "password", "plain", "P"),
+                    ("req", BOB, SC, "publickey", ed + "probe", "S"), ("iresp", "P"), ("iresp", "Q")]
     elif cfg == "no-service-request":
         ed = "ed25519/ssh-ed25519/"
         evs += [("req", AL, SC, "none", "-", app) for app in "SF"]
@@ -125,8 +147,8 @@ DEAD_PROBES = [("req", AL, SC, "password", "plain", "S"), ("iresp", "S"),
 
 def depth_for(tier, cfg):
     if tier == "quick":
-        return {"shipped": 2, "gss-bound": 4, "gss-off": 2, "no-service-request": 2}[cfg]
-    return {"shipped": 14, "gss-bound": 14, "gss-off": 14, "no-service-request": 3}[cfg]
+        return {"shipped": 2, "gss-bound": 4, "gss-off": 2, "no-service-request": 2, "two-users": 3}[cfg]
+    return {"shipped": 14, "gss-bound": 14, "gss-off": 14, "no-service-request": 3, "two-users": 4}[cfg]
 
 
 # canon: merged states have equal futures because the server-side handlers branch only on these
@@ -155,10 +177,28 @@ def sub_events(ev):
 def event_class(ev):
     ev = R.tup(ev)
     if ev[0] == "req":
-        return "req:%s:%s:%s" % (ev[3], ev[4], ev[5])
+        return "req:%s%s:%s:%s" % ("" if ev[1] == AL else "user=%s:" % ev[1], ev[3], ev[4], ev[5])
     if ev[0] == "burst":
         return "burst(" + ",".join(event_class(x) for x in ev[1]) + ")"
     return ":".join(str(x) for x in ev)
+
+
+def new_model(cfg):
+    return R.Model(gss_enabled=CFGS[cfg]["gss"], enforce_cap=False, pin_user=CFGS[cfg].get("pin_user", True))
+
+
+def approved_user(subs, approving, obs):
+    """The user name the approving application callback was about: the name in the request for callbacks
+    that take one; for check_auth_interactive_response (no name) the name the application was given when it
+    issued the challenge (last check_auth_interactive call of the history).  None = unknown."""
+    for c in approving:
+        if c[1] is not None:
+            return c[1]
+    for ob in reversed(obs):
+        for c in reversed(ob["cb"]):
+            if c[0] == "auth_interactive":
+                return c[1]
+    return None
 
 
 def judge_factory(cfg):
@@ -167,7 +207,7 @@ def judge_factory(cfg):
     tag = "[gss-bound]" if cfg == "gss-bound" else ""
 
     def judge(hist, obs, acc):
-        m = R.Model(gss_enabled=kw["gss"], enforce_cap=False)
+        m = new_model(cfg)
         v = None
         for ev in hist:
             v = m.step(ev)
@@ -190,7 +230,7 @@ def judge_factory(cfg):
         # model / implementation agreement on which handler owns packet type 61 (see authref)
         desync = False
         if prev["active"] and not prev["authed"]:
-            m2 = R.Model(gss_enabled=kw["gss"], enforce_cap=False)
+            m2 = new_model(cfg)
             for e in hist[:-1]:
                 m2.step(e)
             if (m2.gss is not None) != (prev["handler"] != "AuthHandler") and m2.alive:
@@ -221,6 +261,14 @@ def judge_factory(cfg):
                 detail = "callback-result-not-success" if refusing else "application-not-consulted"
                 acc.violation("granted-without-application-approval:%s%s:%s" % (site, tag, detail),
                               {"history": hist, "reaction": o, "model": v.as_dict()}, replay)
+                keep = False
+            elif (o["get_username"] is not None and approved_user(subs, approving, obs) is not None
+                  and o["get_username"] != approved_user(subs, approving, obs)):
+                # "... the application's check for THAT username ... returned success"
+                acc.violation("granted-to-other-username-than-approved:%s%s" % (site, tag),
+                              {"history": hist, "reaction": o, "model": v.as_dict(),
+                               "approved_for": approved_user(subs, approving, obs),
+                               "authenticated_as": o["get_username"]}, replay)
                 keep = False
             elif not v.may_auth and not desync:
                 acc.violation("granted-without-valid-proof:%s%s:%s" % (site, tag, v.why or "?"),
@@ -300,10 +348,11 @@ def main(tier):
         "(authenticated, handler, expected packets, GSS context), reply class) reached while the connection was "
         "alive, i.e. the server really evaluated that credential in that state",
         ["server application answers are scripted per packet", "GSS-API library replaced by a stub context",
-         "client side only transports harness-composed packets", "one username (alice); C16 covers switching",
+         "client side only transports harness-composed packets",
+         "one username (alice) except in the two-users configuration; C16 covers the fatal username switch",
          "event mode: the server reacts completely to one packet (or one pipelined burst) before the next"])
     summary = {}
-    for cfg in ("shipped", "gss-bound", "gss-off", "no-service-request"):
+    for cfg in ("shipped", "gss-bound", "gss-off", "no-service-request", "two-users"):
         out, acc = A.pbfs(make_run(cfg), make_enabled(tier, cfg), canon, judge_factory(cfg),
                           depth_for(tier, cfg))
         ck.merge(acc)
@@ -336,7 +385,7 @@ def replay(rec):
     cfg, hist = r["cfg"], [R.tup(e) for e in r["hist"]]
     A.preload_keys()
     obs = make_run(cfg)(hist)
-    m = R.Model(gss_enabled=CFGS[cfg]["gss"], enforce_cap=False)
+    m = new_model(cfg)
     print("configuration:", cfg)
     for ev, o in zip([None] + hist, obs):
         v = m.step(ev) if ev is not None else None
